@@ -70,6 +70,14 @@ def _is_local_name(name, node=None):
     return name not in LITERAL_NAMES and not name[:1].isupper()
 
 
+import os as _os
+# Plain names in a pattern used to match any local (consistently); since the
+# tree is alpha-normalised to the reference spelling before any rule runs
+# (sa/normalize.py) names are matched literally, which keeps patterns that
+# interpolate one particular variable exact.  SA_LOCAL_INSENSITIVE=1 brings
+# the old behaviour back for experiments.
+LOCAL_INSENSITIVE = _os.environ.get("SA_LOCAL_INSENSITIVE") == "1"
+
 _COMMUTATIVE = (ast.Add, ast.Mult, ast.BitOr, ast.BitAnd, ast.BitXor)
 # `a < b` is `b > a`, `a == b` is `b == a` (for the DSL's expression objects
 # too: Python falls back to the reflected method, which the DSL defines as
@@ -86,7 +94,8 @@ def _is_int_const(n):
 def _m(p, s, b):
     if isinstance(p, ast.Name) and p.id.startswith(_LIT):
         return isinstance(s, ast.Name) and s.id == p.id[len(_LIT):]
-    if isinstance(p, ast.Name) and not p.id.startswith((_MV, _MVS)) \
+    if LOCAL_INSENSITIVE and isinstance(p, ast.Name) \
+            and not p.id.startswith((_MV, _MVS)) \
             and isinstance(s, ast.Name) and _is_local_name(p.id, s) \
             and _is_local_name(s.id, s):
         key = "~" + p.id
